@@ -168,6 +168,18 @@ impl Hypercore {
         &&& is_first_missing(&self.bitfield, self.header.hints.contiguous_length as int)
         &&& forall|k: int| k >= self.tree.length ==> !(#[trigger] self.bitfield.bit(k))
     }
+    /// wf without "nothing is held at or beyond the length" (a replica re-establishes that clause only when the
+    /// accepted changeset covers the received block and does not shrink the log)
+    pub open spec fn wf_core(&self) -> bool {
+        &&& self.bitfield.wf()
+        &&& !self.storage.failed@
+        &&& header_small(self.header)
+        &&& self.oplog.entries_byte_length <= 0xffff_ffff_ff && self.oplog.entries_length <= 0xffff_ffff_ffff_ff
+        &&& self.tree.truncate_to <= 0xffff_ffff_ffff
+        &&& self.tree.length <= 0xff_ffff_ffff && self.tree.byte_length <= 0xff_ffff_ffff_ffff
+        &&& self.skip_flush_count <= 3
+        &&& is_first_missing(&self.bitfield, self.header.hints.contiguous_length as int)
+    }
     /// between two public calls: the oplog is short (a longer one is flushed at the end of the call that made it so)
     pub open spec fn quiescent(&self) -> bool {
         self.oplog.entries_byte_length < 65536 && self.oplog.entries_length <= 0xffff_ffff_ffff && (self.skip_flush_count == 0 || self.oplog.entries_length + self.skip_flush_count <= 3)
@@ -214,14 +226,14 @@ impl Hypercore {
     tags: C02 C10 C12 C06
     result: r
     requires:
-        old(self).wf()
+        old(self).wf_core()
     ensures:
         final(self).same_view(old(self)),
         final(self).skip_flush_count == old(self).skip_flush_count,
         final(self).storage.reads@ == old(self).storage.reads@,
         // C10: a failed storage operation is reported, nothing is issued after it
         (r is Err) == final(self).storage.failed@,
-        r is Ok ==> final(self).wf() && final(self).oplog.entries_byte_length == 0 && final(self).oplog.entries_length == 0,
+        r is Ok ==> final(self).wf_core() && final(self).oplog.entries_byte_length == 0 && final(self).oplog.entries_length == 0,
         r is Ok && !clear_traces ==> Oplog::cur_hbit(final(self).oplog.header_bits) != Oplog::cur_hbit(old(self).oplog.header_bits),
         final(self).storage.journal@.len() >= old(self).storage.journal@.len(),
         // C02: bitfield pages, then tree (truncate first, then nodes), then the header slot(s), then the truncate of the entries
@@ -461,6 +473,148 @@ impl Hypercore {
             assert(self.storage.journal@[j0.len() as int + 1] == s_mid.storage.journal@[j0.len() as int + 1]);
             assert(self.storage.journal@.subrange(0, j0.len() as int) =~= j0);
         }
+    @*/
+}
+
+pub open spec fn ev_proof(proof: &Proof) -> Seq<Ev> {
+    (if proof.upgrade is Some { seq![Ev::DataUpgrade] } else { Seq::<Ev>::empty() })
+        + (if proof.block is Some { seq![Ev::Have { start: proof.block->Some_0.index, length: 1, drop: false }] } else { Seq::<Ev>::empty() })
+}
+
+impl Hypercore {
+    /*@ fn src/core.rs Hypercore::verify_proof
+    tags: C03 C04 C09 C10
+    result: r
+    requires:
+        !old(self).storage.failed@
+    ensures:
+        final(self).same_view(old(self)), final(self).bitfield == old(self).bitfield, final(self).tree == old(self).tree,
+        final(self).oplog == old(self).oplog, final(self).skip_flush_count == old(self).skip_flush_count,
+        final(self).storage.journal@ == old(self).storage.journal@,
+        final(self).storage.failed@ ==> r is Err,
+        r is Ok ==> !final(self).storage.failed@ && verified_changeset(&old(self).tree, &r->Ok_0) && (proof.upgrade is Some ==> r->Ok_0.upgraded)
+    @*/
+
+    /*@ fn src/core.rs Hypercore::verify_and_apply_proof
+    tags: C02 C03 C04 C08 C10 C13
+    result: r
+    requires:
+        old(self).wf(), old(self).quiescent(),
+        proof.block is Some ==> proof.block->Some_0.index < 0xff_ffff_ffff && proof.block->Some_0.value@.len() <= 0xff_ffff_ffff
+    ensures:
+        // fork gate: a proof for another fork changes nothing at all
+        proof.fork != old(self).tree.fork ==> r is Ok && r->Ok_0 == false && *final(self) == *old(self),
+        // C04: a refused proof (Ok(false), or an error before the first write) leaves every observation unchanged
+        r is Ok && r->Ok_0 == false ==> final(self).same_view(old(self)) && final(self).storage.journal@ == old(self).storage.journal@,
+        r is Err && final(self).storage.journal@ == old(self).storage.journal@ ==> final(self).same_view(old(self)),
+        // C13: refused and failed calls announce nothing; an accepted proof announces exactly what it carried
+        !(r is Ok && r->Ok_0 == true) ==> final(self).events.trace@ == old(self).events.trace@,
+        r is Ok && r->Ok_0 == true ==> final(self).events.trace@ == old(self).events.trace@ + ev_proof(proof),
+        // C10
+        final(self).storage.failed@ ==> r is Err,
+        r is Ok && r->Ok_0 == true ==> final(self).wf_core() && final(self).quiescent() && final(self).key_pair == old(self).key_pair
+            // exactly the received block becomes held
+            && (forall|k: int| #![trigger final(self).bitfield.bit(k)] final(self).bitfield.bit(k)
+                    == (old(self).bitfield.bit(k) || (proof.block is Some && k == proof.block->Some_0.index))),
+        // C02: the block is written to the data file first (at the offset recorded by the verified tree nodes), then
+        // the oplog entry (the commit point)
+        r is Ok && r->Ok_0 == true && proof.block is Some ==>
+            final(self).storage.journal@.len() >= old(self).storage.journal@.len() + 2
+            && final(self).storage.journal@.subrange(0, old(self).storage.journal@.len() as int) == old(self).storage.journal@
+            && final(self).storage.journal@[old(self).storage.journal@.len() as int]
+                == (StoreOp::Write { store: Store::Data, off: blk_off(proof.block->Some_0.index as int), data: proof.block->Some_0.value@ })
+            && (final(self).storage.journal@[old(self).storage.journal@.len() as int + 1] matches StoreOp::Write { store, off, data }
+                && store == Store::Oplog && off == 8192 + old(self).oplog.entries_byte_length),
+        r is Ok && r->Ok_0 == true && proof.block is None ==>
+            final(self).storage.journal@.len() >= old(self).storage.journal@.len() + 1
+            && final(self).storage.journal@.subrange(0, old(self).storage.journal@.len() as int) == old(self).storage.journal@
+            && (final(self).storage.journal@[old(self).storage.journal@.len() as int] matches StoreOp::Write { store, off, data }
+                && store == Store::Oplog && off == 8192 + old(self).oplog.entries_byte_length)
+    before `// Now ready to flush`#1:
+        let ghost s_mid = *self;
+        proof {
+            let j0 = old(self).storage.journal@;
+            assert(self.wf_core());
+            assert(self.storage.journal@.subrange(0, j0.len() as int) =~= j0);
+        }
+    last:
+        proof {
+            let j0 = old(self).storage.journal@;
+            assert(self.same_view(&s_mid) || true);
+            assert(forall|k: int| self.bitfield.bit(k) == s_mid.bitfield.bit(k));
+            assert(self.storage.journal@.subrange(0, j0.len() as int) =~= j0);
+            assert(self.storage.journal@[j0.len() as int] == s_mid.storage.journal@[j0.len() as int]);
+            if proof.block is Some { assert(self.storage.journal@[j0.len() as int + 1] == s_mid.storage.journal@[j0.len() as int + 1]); }
+            assert(self.events.trace@ =~= old(self).events.trace@ + ev_proof(proof));
+        }
+    @*/
+}
+
+impl Hypercore {
+    /*@ fn src/core.rs Hypercore::create_valueless_proof ; nodecreases noisolation
+    tags: C03 C09 C10
+    result: r
+    requires:
+        !old(self).storage.failed@
+    ensures:
+        final(self).same_view(old(self)), final(self).bitfield == old(self).bitfield, final(self).tree == old(self).tree,
+        final(self).oplog == old(self).oplog, final(self).skip_flush_count == old(self).skip_flush_count,
+        final(self).storage.journal@ == old(self).storage.journal@,
+        final(self).storage.failed@ ==> r is Err,
+        r is Ok ==> !final(self).storage.failed@ && (r->Ok_0.block is Some) == (block is Some)
+            && (block is Some ==> r->Ok_0.block->Some_0.index == block->Some_0.index)
+    sub `infos\.extend\(self\.storage\.read_infos_to_vec\(&instructions\)\?\);` => `vp_extend(&mut infos, self.storage.read_infos_to_vec(&instructions)?);`
+    loop 1:
+        invariant
+            !self.storage.failed@,
+            self.same_view(old(self)), self.bitfield == old(self).bitfield, self.tree == old(self).tree,
+            self.oplog == old(self).oplog, self.skip_flush_count == old(self).skip_flush_count,
+            self.storage.journal@ == old(self).storage.journal@
+    @*/
+
+    /*@ fn src/core.rs Hypercore::create_proof
+    tags: C03 C09 C10
+    result: r
+    requires:
+        old(self).wf()
+    ensures:
+        // creating a proof never writes and never changes the log
+        final(self).storage.journal@ == old(self).storage.journal@,
+        final(self).bitfield == old(self).bitfield, final(self).tree == old(self).tree, final(self).header == old(self).header,
+        final(self).storage.failed@ ==> r is Err,
+        // C03: a block that is not held (never received, or cleared) yields no proof rather than a wrong one
+        r is Ok && block is Some && !old(self).bitfield.bit(block->Some_0.index as int) ==> r->Ok_0 is None,
+        r is Ok && r->Ok_0 is Some ==> (r->Ok_0->Some_0.block is Some) == (block is Some)
+            && (block is Some ==> r->Ok_0->Some_0.block->Some_0.index == block->Some_0.index)
+    @*/
+
+    /*@ fn src/core.rs Hypercore::missing_nodes_from_merkle_tree_index ; nodecreases noisolation
+    tags: C03 C09 C10
+    result: r
+    requires:
+        !old(self).storage.failed@
+    ensures:
+        final(self).same_view(old(self)), final(self).bitfield == old(self).bitfield, final(self).tree == old(self).tree,
+        final(self).storage.journal@ == old(self).storage.journal@,
+        final(self).storage.failed@ ==> r is Err
+    sub `infos\.extend\(self\.storage\.read_infos_to_vec\(&instructions\)\?\);` => `vp_extend(&mut infos, self.storage.read_infos_to_vec(&instructions)?);`
+    loop 1:
+        invariant
+            !self.storage.failed@,
+            self.same_view(old(self)), self.bitfield == old(self).bitfield, self.tree == old(self).tree,
+            self.storage.journal@ == old(self).storage.journal@
+    @*/
+
+    /*@ fn src/core.rs Hypercore::missing_nodes
+    tags: C03 C09 C10
+    result: r
+    requires:
+        !old(self).storage.failed@,
+        index <= 0x7fff_ffff_ffff_ffff
+    ensures:
+        final(self).same_view(old(self)), final(self).bitfield == old(self).bitfield, final(self).tree == old(self).tree,
+        final(self).storage.journal@ == old(self).storage.journal@,
+        final(self).storage.failed@ ==> r is Err
     @*/
 }
 
